@@ -390,3 +390,83 @@ mod tests {
         assert!(ax.state.finished);
     }];
 }
+
+// Verification hooks (only compiled with `--cfg ax_verif`): accessors for otherwise private state
+#[cfg(ax_verif)]
+impl Axecutor {
+    pub fn verif_rflags(&self) -> u64 {
+        self.state.rflags
+    }
+
+    pub fn verif_set_rflags(&mut self, value: u64) {
+        self.state.rflags = value;
+    }
+
+    pub fn verif_finished(&self) -> bool {
+        self.state.finished
+    }
+
+    pub fn verif_executed_instructions_count(&self) -> u64 {
+        self.state.executed_instructions_count
+    }
+
+    pub fn verif_max_instructions(&self) -> Option<u64> {
+        self.state.max_instructions
+    }
+
+    pub fn verif_code_end_addr(&self) -> u64 {
+        self.code_end_addr
+    }
+
+    pub fn verif_set_code_end_addr(&mut self, value: u64) {
+        self.code_end_addr = value;
+    }
+
+    pub fn verif_stack_top(&self) -> u64 {
+        self.stack_top
+    }
+
+    pub fn verif_set_stack_top(&mut self, value: u64) {
+        self.stack_top = value;
+    }
+
+    pub fn verif_hooks_running(&self) -> bool {
+        self.hooks.running
+    }
+
+    /// (instr_ip, target, variant: 0 = call / 1 = return / 2 = jump, level, count) per trace entry
+    pub fn verif_trace(&self) -> Vec<(u64, u64, u8, i16, u64)> {
+        self.state
+            .trace
+            .iter()
+            .map(|t| {
+                (
+                    t.instr_ip,
+                    t.target,
+                    match t.variant {
+                        TraceVariant::Call => 0,
+                        TraceVariant::Return => 1,
+                        TraceVariant::Jump => 2,
+                    },
+                    t.level,
+                    t.count,
+                )
+            })
+            .collect()
+    }
+
+    pub fn verif_call_stack(&self) -> Vec<u64> {
+        self.state.call_stack.clone()
+    }
+
+    /// Symbol table sorted by address
+    pub fn verif_symbols(&self) -> Vec<(u64, String)> {
+        let mut v: Vec<(u64, String)> = self
+            .symbol_table
+            .iter()
+            .map(|(a, s)| (*a, s.clone()))
+            .collect();
+        v.sort();
+        v
+    }
+}
